@@ -86,39 +86,81 @@ M = [
 def sh(*a, **k):
     return subprocess.run(*a, shell=True, capture_output=True, text=True, **k)
 
+def build_patch(name, f, old, new):
+    d = f"/verif/seeded/own/{name}"
+    os.makedirs(d, exist_ok=True)
+    p = os.path.join(R, f)
+    s = open(p).read()
+    if s.count(old) != 1:
+        print(f"!! {name}: pattern occurs {s.count(old)} times in {f}")
+        return None
+    # build the patch in a scratch worktree so /repo itself is never touched
+    wt = "/tmp/pm-build"
+    if not os.path.isdir(wt):
+        sh(f"git -C {R} worktree add --detach {wt} HEAD")
+    sh(f"git -C {wt} checkout -q --detach $(git -C {R} rev-parse HEAD); git -C {wt} checkout -q -- .")
+    q = os.path.join(wt, f)
+    open(q, "w").write(open(q).read().replace(old, new, 1))
+    diff = sh(f"git -C {wt} diff").stdout
+    sh(f"git -C {wt} checkout -q -- .")
+    open(f"{d}/patch.diff", "w").write(diff)
+    return d
+
+
+def run_one(args):
+    slot, (name, f, old, new, checks) = args
+    d = f"/verif/seeded/own/{name}"
+    r = sh(f"/verif/tools/par_mutant.sh {slot} {d}/patch.diff quick {' '.join(checks)}")
+    out = r.stdout + r.stderr
+    res = {}
+    sigs = {}
+    for l in out.splitlines():
+        for c in checks:
+            if l.startswith(c + " exit="):
+                res[c] = int(l.split("exit=")[1].split()[0])
+                if "signature:" in l:
+                    sigs[c] = l.split("signature:")[1].strip()
+    baseline = "green" if "baseline: green" in out else ("red" if "baseline: RED" in out else "?")
+    json.dump({"origin": "own sensitivity mutant (DESIGN.md sensitivity lists); evaluated with tools/par_mutant.sh (scratch worktree + copy of the harness)",
+               "file": f, "checks_run": checks, "exit_codes": res, "signatures": sigs, "baseline_tests": baseline}, open(f"{d}/meta.json", "w"), indent=1)
+    return name, baseline, res, out
+
+
 def main():
-    pats = sys.argv[1:]
-    rows = []
-    for name, f, old, new, checks in M:
+    import queue, threading
+    pats = [a for a in sys.argv[1:] if not a.startswith("-j")]
+    nslots = int(([a[2:] for a in sys.argv[1:] if a.startswith("-j")] or ["4"])[0])
+    todo = []
+    for m in M:
+        name, f, old, new, checks = m
         if pats and not any(p in name for p in pats):
             continue
-        d = f"/verif/seeded/own/{name}"
-        os.makedirs(d, exist_ok=True)
-        p = os.path.join(R, f)
-        s = open(p).read()
-        if s.count(old) != 1:
-            print(f"!! {name}: pattern occurs {s.count(old)} times in {f}")
-            continue
-        open(p, "w").write(s.replace(old, new, 1))
-        diff = sh(f"git -C {R} diff").stdout
-        sh(f"git -C {R} checkout -- .")
-        open(f"{d}/patch.diff", "w").write(diff)
-        if not checks:
-            continue
-        r = sh(f"/verif/tools/try_mutant.sh {d}/patch.diff quick {' '.join(checks)}")
-        out = r.stdout + r.stderr
-        print(f"##### {name} [{f}]")
-        print("\n".join(l[:260] for l in out.splitlines()))
-        res = {}
-        for l in out.splitlines():
-            for c in checks:
-                if l.startswith(c + " exit="):
-                    res[c] = int(l.split("exit=")[1].split()[0])
-        baseline = "green" if "baseline: green" in out else ("red" if "baseline: RED" in out else "?")
-        json.dump({"origin": "own sensitivity mutant (DESIGN.md sensitivity lists)", "file": f, "checks_run": checks, "exit_codes": res, "baseline_tests": baseline}, open(f"{d}/meta.json", "w"), indent=1)
-        rows.append((name, baseline, res))
+        if build_patch(name, f, old, new) and checks:
+            todo.append(m)
+    q = queue.Queue()
+    for m in todo:
+        q.put(m)
+    rows = []
+    lock = threading.Lock()
+
+    def worker(slot):
+        while True:
+            try:
+                m = q.get_nowait()
+            except queue.Empty:
+                return
+            name, b, res, out = run_one((slot, m))
+            with lock:
+                rows.append((name, b, res))
+                print(f"##### {name}")
+                print("\n".join(l[:240] for l in out.splitlines()), flush=True)
+
+    ts = [threading.Thread(target=worker, args=(i + 1,)) for i in range(nslots)]
+    [t.start() for t in ts]
+    [t.join() for t in ts]
     print("\n==== summary")
-    for name, b, res in rows:
+    for name, b, res in sorted(rows):
         print(f"{name:34s} baseline={b:5s} " + " ".join(f"{c}:{'CAUGHT' if v == 1 else ('incon' if v == 2 else 'missed')}" for c, v in res.items()))
+
 
 main()
